@@ -103,6 +103,49 @@ def check_retained_minimisation(ctx, c, snaps):
                                       prios[pi], hi_a.tolist()[:3], doc_hi.tolist()[:3]))
 
 
+def check_retained_targets(ctx, c, out):
+    """the constraints that keep the target goals of a finished priority are the documented ones
+    (m + (eps + violation_relaxation)(range_min - m) <= f <= ...): the constraint stores after every priority
+    against Goals.v fed with the achieved epsilons"""
+    terms, meta = c02.model_store_terms(c, out)
+    if not terms:
+        return
+    mod = core.eval_terms(ID + "s", ["Xq", "Interval", "Goals"], terms)
+    for (m, is_path, pi), ms in zip(meta, mod):
+        it = iter(ms)
+        n = next(it)
+        mv = []
+        for _ in range(n):
+            next(it)
+            mv.append(c02.dec_itvs(it))
+        snap = out["snaps"][pi]
+        if "stores_after" not in snap:
+            continue
+        im = snap["stores_after"][1 if is_path else 0][m]
+        iv = [list(zip(lo, hi)) for _, lo, hi in im]
+        ctx.count("retained_target_stores")
+        same = len(iv) == len(mv) and all(
+            len(a) == len(b) and all(c02.close(x[0], y[0], 1e-7) and c02.close(x[1], y[1], 1e-7) for x, y in zip(a, b))
+            for a, b in zip(iv, mv))
+        if not same:
+            ctx.violation("retained/target-bound",
+                          {"case": c, "member": m, "path": is_path, "priority_index": pi, "stored": im,
+                           "documented": [[[str(a), str(b)] for a, b in v] for v in mv]},
+                          what="after priority index %d the goals are kept as %s, documented %s" % (
+                              pi, json.dumps(iv)[:120], json.dumps([[[float(a), float(b)] for a, b in v] for v in mv])[:120]))
+            return
+
+
+def violation_relaxation_cases():
+    """a violated target goal kept with violation_relaxation > 0, a later priority that uses the slack"""
+    out = []
+    for path, vr, later in ((True, "1/64", {"order": 1}), (False, "1/16", {"order": 2, "tmax": 2.0})):
+        out.append({"k": "run", "times": [0, 1, 2], "E": 1, "p": [0], "variant": "multi", "options": {"violation_relaxation": vr},
+                    "goals": [{"path": path, "fn": "y", "prio": 1, "k": 1, "order": 2, "weight": 1, "nominal": 1, "tmin": 11.0, "fk": "g0"},
+                              dict({"path": path, "fn": "y", "prio": 2, "k": 1, "weight": 1, "nominal": 1, "fk": "g1"}, **later)]})
+    return out
+
+
 def resolve_implementation(snap, reported, scale):
     """re-solve the very NLP the implementation handed to its solver, from other starts and with
     tightened tolerances: True when that NLP itself has a better point than the reported one"""
@@ -233,7 +276,7 @@ def run(ctx):
     if replay:
         cases = [json.load(open(replay))["replay"]["case"]]
     else:
-        cases = [c["case"] for c in core.corpus_cases(ID)] + [gen_case(ctx.rng) for _ in range(ctx.n(12, 400))]
+        cases = [c["case"] for c in core.corpus_cases(ID)] + violation_relaxation_cases() + [gen_case(ctx.rng) for _ in range(ctx.n(12, 400))]
     jobs = []
     for c in cases:
         out = c02.run_case(c)
@@ -245,6 +288,8 @@ def run(ctx):
             ctx.count("run_failed_solve")
         if c.get("variant", "multi") == "multi":
             check_retained_minimisation(ctx, c, out["snaps"])
+            if out["ok"] and c.get("options", {}).get("violation_relaxation"):
+                check_retained_targets(ctx, c, out)
         for pi, snap in enumerate(out["snaps"]):
             stores = snap["stores_before"]
             try:
